@@ -60,7 +60,35 @@ macro_rules! intint { ($l:expr, $r:expr, |$a:ident, $b:ident| $e:expr) => { matc
     (V::U32($a), V::U32($b)) => $e, (V::I32($a), V::I32($b)) => $e, (V::U64($a), V::U64($b)) => $e, (V::I64($a), V::I64($b)) => $e,
     (V::I128($a), V::I128($b)) => $e, _ => "BADARG".to_string() } } }
 
+#[cfg(feature = "rkyv")]
+fn rk(op: &str, a: Decimal, b: Decimal) -> String {
+    use rkyv::Deserialize;
+    let ba = rkyv::to_bytes::<_, 256>(&a).unwrap();
+    let bb = rkyv::to_bytes::<_, 256>(&b).unwrap();
+    let aa = rkyv::check_archived_root::<Decimal>(&ba[..]).unwrap();
+    let ab = rkyv::check_archived_root::<Decimal>(&bb[..]).unwrap();
+    match op {
+        "rkyv_eq" => format!("B:{}", (aa == ab) as u8),
+        "rkyv_eq_dec" => format!("B:{}", (*aa == b) as u8),
+        "rkyv_dec_eq" => format!("B:{}", (a == *ab) as u8),
+        "rkyv_partial_cmp" => ord(aa.partial_cmp(ab)),
+        "rkyv_cmp" => ord(Some(aa.cmp(ab))),
+        "rkyv_partial_cmp_dec" => ord(aa.partial_cmp(&b)),
+        "rkyv_dec_partial_cmp" => ord(a.partial_cmp(ab)),
+        "rkyv_roundtrip" => { let x: Decimal = aa.deserialize(&mut rkyv::Infallible).unwrap(); d(x) }
+        _ => "BADOP".into(),
+    }
+}
+#[cfg(not(feature = "rkyv"))]
+fn rk(_op: &str, _a: Decimal, _b: Decimal) -> String { "BADOP".into() }
+
 fn run(op: &str, l: &V, r: &V, n: i32, prec: Option<usize>) -> String {
+    if op.starts_with("rkyv_") {
+        return match (l, r) {
+            (V::D(a), V::D(b)) => rk(op, *a, *b),
+            (V::D(a), _) => rk(op, *a, *a),
+            _ => "BADARG".into() };
+    }
     match op {
         "add" => binop!(l, r, |a, b| d(a + b)),
         "sub" => binop!(l, r, |a, b| d(a - b)),
